@@ -97,6 +97,7 @@ pub async fn observe(run: &Run) -> Value {
     })
 }
 
+static DAMAGE: std::sync::atomic::AtomicU64 = std::sync::atomic::AtomicU64::new(0);
 fn write_key_file(guid: &str, key: &str) {
     crate::seams::untraced(|| {
         // a key file left by an earlier agent instance lies in a directory that instance had restricted; the script
@@ -111,7 +112,21 @@ fn write_key_file(guid: &str, key: &str) {
         if !std::fs::metadata(dir).map(|m| m.permissions().mode() & 0o777 == 0o700).unwrap_or(false) {
             return;
         }
-        let body = serde_json::to_vec_pretty(&json!({"authorizationScheme": "Azure-HMAC-SHA256", "guid": guid, "issued": "2027-01-15T08:00:00Z", "key": key})).unwrap();
+        let mut body = serde_json::to_vec_pretty(&json!({"authorizationScheme": "Azure-HMAC-SHA256", "guid": guid, "issued": "2027-01-15T08:00:00Z", "key": key})).unwrap();
+        // a damaged file that still holds the key value (torn write, stray trailing bytes, a broken field elsewhere)
+        match DAMAGE.swap(0, std::sync::atomic::Ordering::SeqCst) {
+            1 => body.extend_from_slice(b"}}garbage"),
+            2 => {
+                let n = body.len();
+                body.truncate(n - 2);
+            }
+            3 => {
+                if let Some(p) = body.windows(6).position(|w| w == b"issued") {
+                    body[p - 1] = b' '; // the opening quote of a field name is gone
+                }
+            }
+            _ => {}
+        }
         let _ = std::fs::write(format!("{}/{}.key", dir, guid), body);
     })
 }
@@ -157,8 +172,11 @@ pub async fn custom_step(run: &mut Run, idx: usize, kind: &str, s: &Value) -> bo
             let mut g = run.hosts.lock().unwrap();
             match s["mode"].as_str().unwrap_or("new") {
                 "none" => g.set_latched(None),
-                "rotate_with_file" => {
+                "rotate_with_file" | "rotate_with_damaged_file" => {
                     let k = g.new_key();
+                    if s["mode"] == "rotate_with_damaged_file" {
+                        DAMAGE.store(1 + (g.key_counter % 3), std::sync::atomic::Ordering::SeqCst);
+                    }
                     write_key_file(&k.0, &k.1);
                     g.history.push(format!("script: host latches {} (file present locally)", k.0));
                     g.set_latched(Some(k));
@@ -608,7 +626,7 @@ pub fn gen_c12(seed: u64, tier: &str) -> Value {
     let mut tokn = 0u64;
     for k in 0..nsteps {
         match r.below(5) {
-            0 => steps.push(json!({"t": "host_latch", "mode": *r.pick(&["none", "new", "rotate_with_file"])})),
+            0 => steps.push(json!({"t": "host_latch", "mode": *r.pick(&["none", "new", "rotate_with_file", "rotate_with_damaged_file", "rotate_with_damaged_file"])})),
             1 => steps.push(json!({"t": "doc", "doc": doc_v1("disabled")})),
             _ => {
                 let d = if r.chance(1, 2) { doc_v1(*r.pick(&["wireserver", "wireserverandimds"])) } else { doc_v2(true, Some(json!({"imds": grant_all_item(&format!("imds-{}", k), *r.pick(&["enforce", "audit"]), *r.pick(&["allow", "deny"]), Some(&procs[r.below(3) as usize]))}))) };
